@@ -1,7 +1,7 @@
 /-
   C09 — the statistics model (`Gama/Model/Stats.lean`) read over ℝ.
 
-  * `Scalar ℝ`, `Trig ℝ`: the signature's operations are the field's, `sqrt = Real.sqrt`,
+  * `Scalar ℝ`, `StatsTrig ℝ`: the signature's operations are the field's, `sqrt = Real.sqrt`,
     `atan2 y x = Complex.arg (x + y i)` (the mathematical meaning of C's `atan2`), `pi = π`.
   * lemmas behind the property theorems of `Props/C09.lean`.
 -/
@@ -19,7 +19,7 @@ namespace Gama
    C05/C06/C07 and C17/C18 lemma files (its literal `ofSci` is `OfScientific.ofScientific`:
    `Gama.scalar_ofSci_eq_ofScientific`; the statistics model uses no literal). -/
 
-noncomputable instance instTrigReal : Trig ℝ where
+noncomputable instance instStatsTrigReal : StatsTrig ℝ where
   atan2 := fun y x => Complex.arg ⟨x, y⟩
   pi := Real.pi
 
@@ -32,8 +32,8 @@ open Real
 theorem beq_real (a b : ℝ) : Scalar.beq a b = true ↔ a = b := by
   show @decide (a = b) (Classical.dec _) = true ↔ a = b
   simp
-@[simp] theorem atan2_real (y x : ℝ) : Trig.atan2 y x = Complex.arg ⟨x, y⟩ := rfl
-@[simp] theorem pi_real : (Trig.pi : ℝ) = π := rfl
+@[simp] theorem atan2_real (y x : ℝ) : StatsTrig.atan2 y x = Complex.arg ⟨x, y⟩ := rfl
+@[simp] theorem pi_real : (StatsTrig.pi : ℝ) = π := rfl
 
 theorem ofInt_real (i : ℤ) : (Scalar.ofInt i : ℝ) = (i : ℝ) := by
   unfold Scalar.ofInt
